@@ -127,8 +127,8 @@ def run_shard(shard, ctx):
         return
     if shard[0] == "lengths":
         # length VALUES: every value 0..300 and values around powers of two and ten, on equal-length chords, mixed
-        # chords, single and open notes (identity vs equality of integers, narrow integer types, digit counts)
-        vals = sorted(set(range(0, 301)) | {2**k + d for k in (8, 15, 16, 31, 32, 53, 63, 64) for d in (-1, 0, 1)} | {10**k + d for k in (3, 6, 9, 12) for d in (-1, 0)})
+        # chords, single and open notes (identity vs equality of integers, narrow integer types, digit counts); values whose END TIME at 120 BPM exceeds the timedelta range (>= 2^55 ticks) are left to the fast-tempo 'big' shard
+        vals = sorted(set(range(0, 301)) | {2**k + d for k in (8, 15, 16, 31, 32, 53) for d in (-1, 0, 1)} | {10**k + d for k in (3, 6, 9, 12) for d in (-1, 0)})
         mname, mlines = MAPS[0]
         sync = ["0 = TS 4", "0 = B 120000"] + mlines
         for L in vals:
